@@ -829,6 +829,9 @@ impl Program {
     pub fn into_instructions(self) -> Vec<Instruction> {
         let mut instructions: Vec<Instruction> = Vec::with_capacity(self.len());
 
+        // Same order as `to_instructions` (and therefore as the serialized program): extern
+        // pragmas come first.
+        instructions.extend(self.extern_pragma_map.into_instructions());
         instructions.extend(self.memory_regions.into_iter().map(|(name, descriptor)| {
             Instruction::Declaration(Declaration {
                 name,
@@ -851,7 +854,6 @@ impl Program {
                 .into_values()
                 .map(Instruction::CircuitDefinition),
         );
-        instructions.extend(self.extern_pragma_map.into_instructions());
         instructions.extend(self.instructions);
         instructions
     }
